@@ -440,6 +440,70 @@ func genVecAggCase(r *rand.Rand) ([]MemRec, mexprIn, []evalIn) {
 	return recs, *e, wideEvals
 }
 
+func vecLeaf(id int, r *rand.Rand, app string) *mexprIn {
+	e := &mexprIn{T: "range", ID: id, Op: []string{"count_over_time", "bytes_over_time"}[r.Intn(2)], Param: Ints{0, 1}, Grp: noGrp(), V: Ints{0, 1},
+		Unwrap: unwrapIn{Label: Ints{}}, Range: 100, Stages: []stageIn{{T: "drop", Labels: IntsList{B("msg"), B("v")}}}}
+	eps, _ := json.Marshal(&ReAST{T: "eps"})
+	e.Sel = []matcherIn{}
+	if app != "" {
+		e.Sel = []matcherIn{{Label: B("app"), Op: "eq", Val: B(app), Re: eps}}
+	}
+	g := []grpIn{{Mode: "by", Labels: IntsList{B("zone")}}, {Mode: "by", Labels: IntsList{B("zone"), B("app")}}, {Mode: "without", Labels: IntsList{B("app")}}, noGrp()}[r.Intn(4)]
+	return &mexprIn{T: "vecagg", Op: []string{"sum", "max", "count"}[r.Intn(3)], Grp: g, E: e, Sel: []matcherIn{}, Stages: []stageIn{}, Param: Ints{0, 1}, V: Ints{0, 1},
+		Unwrap: unwrapIn{Label: Ints{}}}
+}
+
+func litExpr(p []int) *mexprIn {
+	return &mexprIn{T: "lit", V: p, Sel: []matcherIn{}, Stages: []stageIn{}, Param: Ints{0, 1}, Unwrap: unwrapIn{Label: Ints{}}, Grp: noGrp()}
+}
+
 func genBinOpCase(r *rand.Rand) ([]MemRec, mexprIn, []evalIn) {
-	return genVecAggCase(r)
+	recs := wideRecs(r, false)
+	arith := []string{"add", "sub", "mul", "div", "mod", "pow"}
+	cmpo := []string{"eq", "neq", "gt", "gte", "lt", "lte"}
+	setops := []string{"and", "or", "unless"}
+	scalars := [][]int{{0, 1}, {2, 1}, {-3, 1}, {1, 2}, {1, 1}, {5, 2}}
+	bin := func(op string, a, b *mexprIn, bl bool) *mexprIn {
+		return &mexprIn{T: "binop", Op: op, Bool: bl, A: a, B: b, Sel: []matcherIn{}, Stages: []stageIn{}, Param: Ints{0, 1}, V: Ints{0, 1},
+			Unwrap: unwrapIn{Label: Ints{}}, Grp: noGrp()}
+	}
+	apps := []string{"a", "b", "c", ""}
+	left, right := vecLeaf(1, r, pick(r, apps)), vecLeaf(2, r, pick(r, apps))
+	var e *mexprIn
+	switch r.Intn(5) {
+	case 0: // vector o vector, arithmetic
+		op := pick(r, arith)
+		if op == "pow" {
+			op = "mul" // exponents stay scalars (integers) so that results stay exact rationals
+		}
+		e = bin(op, left, right, false)
+	case 1: // set operators
+		e = bin(pick(r, setops), left, right, false)
+	case 2: // vector o scalar on either side
+		op := pick(r, arith)
+		sc := scalars[r.Intn(len(scalars))]
+		if op == "pow" {
+			sc = [][]int{{0, 1}, {2, 1}, {-3, 1}, {1, 1}}[r.Intn(4)] // integer exponents / bases
+		}
+		if r.Intn(2) == 0 {
+			if op == "pow" && sc[0] <= 0 {
+				sc = []int{2, 1}
+			}
+			e = bin(op, litExpr(sc), left, false)
+		} else {
+			e = bin(op, left, litExpr(sc), false)
+		}
+	case 3: // comparison at top level (vector o vector or with a scalar, with and without bool)
+		if r.Intn(2) == 0 {
+			e = bin(pick(r, cmpo), left, right, r.Intn(2) == 0)
+		} else if r.Intn(2) == 0 {
+			e = bin(pick(r, cmpo), left, litExpr(scalars[r.Intn(len(scalars))]), r.Intn(2) == 0)
+		} else {
+			e = bin(pick(r, cmpo), litExpr(scalars[r.Intn(len(scalars))]), left, r.Intn(2) == 0)
+		}
+	default: // nested arithmetic: (left op scalar) op right
+		inner := bin(pick(r, []string{"add", "sub", "mul"}), left, litExpr(scalars[r.Intn(len(scalars))]), false)
+		e = bin(pick(r, []string{"add", "sub", "mul", "div", "and", "or", "unless"}), inner, right, false)
+	}
+	return recs, *e, wideEvals
 }
